@@ -9,6 +9,9 @@ import SnesVerif.Cpu.GoTie.OpsAlt3
 import SnesVerif.Cpu.GoTie.OpsAlt4
 import SnesVerif.Cpu.GoTie.AdcAlt
 import SnesVerif.Cpu.InterruptModel
+import SnesVerif.Cpu.GoTie.SwitchAlt1
+import SnesVerif.Cpu.GoTie.SwitchAlt2
+import SnesVerif.Cpu.GoTie.SwitchAlt3
 namespace Cpu.GoTie.Alt
 open Cpu Cpu.GoPrim Cpu.GoTie
 set_option maxRecDepth 100000
@@ -125,12 +128,6 @@ theorem Reset_eq : Gen.CpuGo.Alt.Reset = Cpu.reset := by
 /-! ### Step -/
 
 open Gen
-macro "rsteps" : tactic => `(tactic|
-  repeat (first
-    | (with_reducible apply read_step _ (isRead_nRead _ _); intro _)
-    | (with_reducible apply read_step _ (isRead_nRead16_wrap _ _); intro _)
-    | (with_reducible apply read_step _ (isRead_nRead24_wrap _ _); intro _)
-    | simp only [modify_bind, get_bind, Cpu.pure_bind, bind_assoc, bind_pure_unit]))
 
 theorem alt_proc_ne : ∀ i, i < 256 → (rowSem (alt_instructions.getD i default)).proc ≠ .none := by
   decide +kernel
@@ -139,9 +136,71 @@ theorem bind_congr_run' {α β : Type} (x : Ex α) (f g : α → Ex β) (s s' : 
     (x >>= f) s = (x >>= g) s' := by
   subst hs; exact bind_congr_run x f g s h
 
-theorem mod32_24 (x : Nat) : x % 4294967296 % 16777216 = x % 16777216 := by omega
+/-- the addressing switch of `Step()` (outlined by the translator as `Step_switch1`): for every mode it computes the model's
+(addr, ea, pageCrossed); the effective address is compared modulo 2^24, which is all `Step` uses of it (`ea &= 0x00ffffff`) -/
+theorem Step_switch1_norm : ∀ (mode : AMode),
+    (Gen.CpuGo.Alt.Step_switch1 mode false 0 0 0 0 >>= fun r => pure (r.1, r.2.1, r.2.2 % 16777216)) =
+      (Cpu.addressing mode >>= fun r => pure (r.2.2, r.1, r.2.1 % 16777216))
+  | .Absolute => sw_Absolute
+  | .Absolute_X => sw_Absolute_X
+  | .Absolute_Y => sw_Absolute_Y
+  | .Accumulator => sw_Accumulator
+  | .Immediate => sw_Immediate
+  | .Immediate_flagM => sw_Immediate_flagM
+  | .Immediate_flagX => sw_Immediate_flagX
+  | .Implied => sw_Implied
+  | .DP => sw_DP
+  | .DP_X => sw_DP_X
+  | .DP_Y => sw_DP_Y
+  | .DP_X_Indirect => sw_DP_X_Indirect
+  | .DP_Indirect => sw_DP_Indirect
+  | .DP_Indirect_Long => sw_DP_Indirect_Long
+  | .DP_Indirect_Y => sw_DP_Indirect_Y
+  | .DP_Indirect_Long_Y => sw_DP_Indirect_Long_Y
+  | .Absolute_X_Indirect => sw_Absolute_X_Indirect
+  | .Absolute_Indirect => sw_Absolute_Indirect
+  | .Absolute_Indirect_Long => sw_Absolute_Indirect_Long
+  | .Absolute_Long => sw_Absolute_Long
+  | .Absolute_Long_X => sw_Absolute_Long_X
+  | .BlockMove => sw_BlockMove
+  | .PC_Relative => sw_PC_Relative
+  | .PC_Relative_Long => sw_PC_Relative_Long
+  | .Stack_Relative => sw_Stack_Relative
+  | .Stack_Relative_Indirect_Y => sw_Stack_Relative_Indirect_Y
+  | .Unknown => sw_Unknown
 
-set_option maxHeartbeats 4000000 in
+/-- stepping over the addressing switch: the continuations are compared on results that agree up to the 24-bit reduction of ea -/
+theorem switch_step {β : Type} (mode : AMode) (f : Bool × U16 × Nat → Ex β) (g : U16 × Nat × Bool → Ex β) (s : St)
+    (h : ∀ (p : Bool) (a : U16) (e1 e2 : Nat) (s' : St), e1 % 16777216 = e2 % 16777216 → f (p, a, e1) s' = g (a, e2, p) s') :
+    (Gen.CpuGo.Alt.Step_switch1 mode false 0 0 0 0 >>= f) s = (Cpu.addressing mode >>= g) s := by
+  have hn := congrFun (Step_switch1_norm mode) s
+  rw [bind_eq', bind_eq'] at hn
+  rw [bind_eq', bind_eq']
+  cases h1 : Gen.CpuGo.Alt.Step_switch1 mode false 0 0 0 0 s with
+  | none =>
+    rw [h1] at hn
+    cases h2 : Cpu.addressing mode s with
+    | none => rfl
+    | some q => rw [h2] at hn; cases hn
+  | some q1 =>
+    rw [h1] at hn
+    cases h2 : Cpu.addressing mode s with
+    | none => rw [h2] at hn; cases hn
+    | some q2 =>
+      rw [h2] at hn
+      obtain ⟨⟨p1, a1, e1⟩, s1⟩ := q1
+      obtain ⟨⟨a2, e2, p2⟩, s2⟩ := q2
+      have hh := Option.some.inj hn
+      have hs : s1 = s2 := (Prod.mk.inj hh).2
+      have hv := (Prod.mk.inj hh).1
+      have hp : p1 = p2 := (Prod.mk.inj hv).1
+      have ha : a1 = a2 := (Prod.mk.inj (Prod.mk.inj hv).2).1
+      have he : e1 % 16777216 = e2 % 16777216 := (Prod.mk.inj (Prod.mk.inj hv).2).2
+      subst hs; subst hp; subst ha
+      exact h p1 a1 e1 e2 s1 he
+
+/-- **`Step()` as translated from emulator/cpualt/cpu.go is the model's `stepFull`** followed by reading Go's result pair
+`(int(cpu.Cycles), cpu.Stopped)` — for every value of the interrupt latch, every register state and every memory -/
 theorem Step_eq (latch : Nat) :
     Gen.CpuGo.Alt.Step (semOf .alt) (adjOf .alt) latch =
       (do Cpu.stepFull .alt latch; let c ← Cpu.get; pure (c.Cycles.toNat, c.Stopped)) := by
@@ -152,30 +211,19 @@ theorem Step_eq (latch : Nat) :
   simp only [modify_bind, get_bind]
   with_reducible apply read_step _ (isRead_nRead _ _); intro opb
   simp only [modify_bind, get_bind, Cpu.pure_bind]
-  have hne : (semOf Variant.alt opb).proc ≠ .none := by
-    have := alt_proc_ne opb.toNat opb.isLt
-    exact this
+  have hne : (semOf Variant.alt opb).proc ≠ .none := alt_proc_ne opb.toNat opb.isLt
   generalize hrow : semOf Variant.alt opb = row at hne
   generalize hadj : adjOf Variant.alt opb = t
   obtain ⟨proc, mode, size, cycles⟩ := row
-  cases mode
-  all_goals (
-    simp only [Cpu.addressing, modify_bind, get_bind, Cpu.pure_bind, bind_assoc]
-    rsteps
-    rcases Bool.eq_false_or_eq_true s1.r.M with hM | hM <;> rcases Bool.eq_false_or_eq_true s1.r.X with hX | hX
-    all_goals (repeat (first
-      | (with_reducible apply read_step _ (isRead_nRead _ _); intro _)
-      | (with_reducible apply read_step _ (isRead_nRead16_wrap _ _); intro _)
-      | (with_reducible apply read_step _ (isRead_nRead24_wrap _ _); intro _)
-      | simp only [hM, hX, ite_bind, ite_run, modify_bind, get_bind, Cpu.pure_bind, bind_assoc, bind_pure_unit, if_true, if_false,
-          Bool.false_eq_true, srcX, srcY, pagesDiffer_eq, callProc_eq proc hne, pure_run, modify_run]))
-    all_goals (repeat' split)
-    all_goals (apply bind_congr_run')
-    all_goals first
-      | (intro _ s''
-         simp only [modify_bind, get_bind, Cpu.pure_bind, bind_assoc, finishRegs, ite_run, pure_run]
-         all_goals ((try split) <;> (try simp_all)))
-      | (simp only [adjustRegs, adjCycles, hM, hX, and_mask24, mod32_24, lin_go, zx_toNat, if_true, if_false, Bool.false_eq_true]
-         all_goals (simp_all [and_mask24, mod32_24, lin_go, zx_toNat])
-         all_goals (first | rfl | (split <;> simp_all))))
+  apply switch_step; intro p a e1 e2 s2 he
+  simp only [modify_bind, get_bind, Cpu.pure_bind, bind_assoc, bind_pure_unit, callProc_eq proc hne]
+  apply bind_congr_run'
+  · simp only [adjustRegs, adjCycles, and_mask24, he]
+    all_goals (rcases Bool.eq_false_or_eq_true s2.r.M with hM | hM <;> rcases Bool.eq_false_or_eq_true s2.r.X with hX | hX <;>
+      cases p <;> simp [hM, hX])
+    all_goals (first | rfl | (split <;> simp_all))
+  · intro _ s3
+    simp only [modify_bind, get_bind, Cpu.pure_bind, bind_assoc, finishRegs, ite_run, pure_run]
+    all_goals ((try split) <;> (try simp_all))
+
 end Cpu.GoTie.Alt
